@@ -94,6 +94,9 @@ structure StepResult where
   errInExec : Bool := false
   errInHook : Bool := false
 
+/-- `set_max_instructions(N)`: stores N, whatever has been executed so far -/
+def setMaxInstr (s : Machine) (N : Nat) : Machine := { s with maxInstr := some N }
+
 /-- has the instruction limit been reached? -/
 def limitReached (s : Machine) : Bool :=
   match s.maxInstr with
@@ -321,6 +324,29 @@ def hookPipeWrite : HookFn := fun s =>
       match pipeWrite s.sys.pipes fd bytes with
       | none => .ok .unhandled s
       | some ps => .ok .handled (setGpr { s with sys := { s.sys with pipes := ps } } RAX (BitVec.ofNat 64 count))
+
+/-! ### registration (`hook_before/after_mnemonic_native`, `handle_syscalls`) -/
+
+/-- the built-in handlers of one syscall number, appended to the before-chain of `Syscall` -/
+def builtinHooks (t : HookTable) (n : Nat) : HookTable :=
+  match n with
+  | 60 => t.addBefore "Syscall" hookExit
+  | 12 => t.addBefore "Syscall" hookBrk
+  | 158 => t.addBefore "Syscall" hookArchPrctl
+  | 22 => ((t.addBefore "Syscall" (fun s => hookPipe (0, 0) s)).addBefore "Syscall" hookPipeRead).addBefore "Syscall" hookPipeWrite
+  | _ => t
+
+/-- one number of a `handle_syscalls` list: already registered numbers are skipped -/
+def registerOne (tr : HookTable × List Nat) (n : Nat) : HookTable × List Nat :=
+  if tr.2.contains n then tr else (builtinHooks tr.1 n, tr.2 ++ [n])
+
+/-- `handle_syscalls(list)`: refused as a whole — nothing is recorded, nothing added — while a hook is executing -/
+def handleSyscalls (running : Bool) (t : HookTable) (registered : List Nat) (ns : List Nat) : Option (HookTable × List Nat) :=
+  if running then none else some (ns.foldl registerOne (t, registered))
+
+/-- `hook_before_mnemonic_native` / `hook_after_mnemonic_native`: refused while a hook is executing -/
+def registerHook (running : Bool) (t : HookTable) (before : Bool) (mn : String) (f : HookFn) : Option HookTable :=
+  if running then none else some (if before then t.addBefore mn f else t.addAfter mn f)
 
 /-! ### stack initialisation -/
 
